@@ -76,7 +76,7 @@ func judgeC05(c *fw.Ctx, sc *SnapCase) {
 }
 
 func init() {
-	pr := &Profile{Sets: defaultSets, Kinds: allKinds, Huge: true, HugeRate: 2000, Zoo: true}
+	pr := &Profile{Sets: defaultSets, Kinds: allKinds, Huge: true, HugeRate: 2000, Zoo: true, Repeat: true}
 	fw.Register(&fw.Prop{
 		ID: "C05", Cases: tierN(200000, 3000000),
 		Run: func(c *fw.Ctx) {
